@@ -556,6 +556,13 @@ pub fn sweep(backend_name: &str, op: &str, count: u64) {
             sched_seed: 1,
         };
         let o = execute(&case);
+        // SWEEP_WHY=1: why the reference run rejected the shape (set-up panic / entry assert)
+        if !o.admissible && std::env::var("SWEEP_WHY").is_ok() {
+            let w = Window { mode: WindowMode::Generous, fill_seed: 0 };
+            if let (Err(e), _) = run(&case, &w, false) {
+                println!("  why: {}", e.chars().take(200).collect::<String>());
+            }
+        }
         let v = o.violation.as_ref().map(|v| format!("{}:{}", v.0, v.1)).unwrap_or_else(|| "ok".into());
         if std::env::var("SWEEP_DETAIL").is_ok()
             && let Some(vv) = &o.violation
